@@ -106,6 +106,64 @@ def chain_case(kinds, has_else, shape=0, form='if'):
     return dict(ast=ast, ns=ns)
 
 
+def late_cases():
+    """A name of a client / with-object is undefined when first tested and
+    is defined (by a callable that runs later in the same rendering) before
+    it is tested again: 'not defined counts as false' is about the moment
+    of the test."""
+    ns = dict(
+        oa=dict(t='obj', attrs=dict(xo='o')),
+        setter=dict(t='rec', id='setter', ret=1, sets=['oa', 'late', 'L']),
+        setter0=dict(t='rec', id='setter0', ret=0,
+                     sets=['oa', 'late', 'L']),
+        unsetter=dict(t='rec', id='unsetter', ret=1,
+                      sets=['oa', 'xo', '']))
+
+    def name(n):
+        return dict(r='name', n=n)
+
+    def iff(conds, bodies, els=None):
+        return dict(k='if', conds=[name(c) for c in conds], bodies=bodies,
+                    **{'else': els})
+    probe = [iff(['late'], [[T('+')]], [T('-')]),
+             dict(k='unless', ref=name('late'), body=[T('U')]),
+             dict(k='var', ref=name('late'), opts=[['missing', '∅']])]
+    bodies = {
+        'elif-defines': [iff(['late', 'setter'], [[T('A')], [T('B[')] +
+                                                   probe + [T(']')]],
+                             [T('C')])],
+        'elif-defines-false': [iff(['late', 'setter0', 'late'],
+                                   [[T('A')], [T('B')], [T('D[')] + probe +
+                                    [T(']')]], [T('C')] + probe)],
+        'call-between': [iff(['late'], [[T('A')]], [T('N')]),
+                         dict(k='call', ref=name('setter'))] + probe,
+        'unless-then-define': [dict(k='unless', ref=name('late'),
+                                    body=[T('U1'), dict(k='call', ref=name(
+                                        'setter'))] + probe)] + probe,
+        'five-names': [iff(['late', 'nope', 'setter0', 'late', 'xo'],
+                           [[T('1')], [T('2')], [T('3')], [T('4')] + probe,
+                            [T('5')] + probe], [T('E')])],
+    }
+    for fam, b in sorted(bodies.items()):
+        for wrap in ('with', 'with-in', 'nested-with'):
+            if wrap == 'with':
+                ast = [dict(k='with', ref=name('oa'), mapping=False,
+                            only=False, body=b)]
+            elif wrap == 'with-in':
+                ast = [dict(k='with', ref=name('oa'), mapping=False,
+                            only=False, body=[dict(
+                                k='in', ref=name('ss'), opts=[], body=b,
+                                **{'else': None})])]
+            else:
+                ast = [dict(k='with', ref=name('oa'), mapping=False,
+                            only=False, body=[dict(
+                                k='let', binds=[['la', name('xo')]],
+                                body=b)])]
+            for sx in ('dtml', 'ssi', 'epfs'):
+                yield dict(ast=[T('<')] + ast + [T('>')], ns=ns, syntax=sx,
+                           family='late:%s:%s' % (fam, wrap))
+
+
 def run(ast, ns, syntax='dtml', style=None):
     src, toks = dtml.print_ast(ast, syntax, dtml.Style(style) if style
                                else None)
@@ -139,6 +197,7 @@ def plan(tier, seed):
         for first in KINDS:
             shards.append(dict(kind='chains', n=n, first=first))
     shards.append(dict(kind='single'))
+    shards.append(dict(kind='late'))
     m = 8
     per = 250 if tier == 'quick' else 5000
     for i in range(m):
@@ -193,6 +252,14 @@ def run_shard(shard):
                              klass=form, distinct_by_construction=True)
                     if bad and bad != 'unspecified':
                         acc.fail(form + ':' + bad[0], [form, kd, sx], bad[1])
+    elif kind == 'late':
+        for c in late_cases():
+            bad = run(c['ast'], c['ns'], c['syntax'])
+            case = dict(late=c['family'], syntax=c['syntax'])
+            acc.case(case, True, klass='late-definition',
+                     distinct_by_construction=True)
+            if bad and bad != 'unspecified':
+                acc.fail('late:' + bad[0], case, bad[1])
     elif kind == 'random':
         ns = gen.base_ns()
         strat = strategy()
@@ -215,6 +282,13 @@ def run_shard(shard):
 
 
 def replay(case):
+    if isinstance(case, dict) and 'late' in case:
+        for c in late_cases():
+            if c['family'] == case['late'] and c['syntax'] == case['syntax']:
+                bad = run(c['ast'], c['ns'], c['syntax'])
+                return ('late:' + bad[0], bad[1]) if bad and \
+                    bad != 'unspecified' else None
+        return None
     if isinstance(case, list) and case[0] == 'chain':
         c = chain_case(case[1], case[2], case[3])
         bad = run(c['ast'], c['ns'], case[4])
